@@ -293,11 +293,19 @@ func runSchedule(s Sched, evw *bufio.Writer) Result {
 		}
 	}()
 
+	// the lines of one trace are written together when the schedule is finished: a crash of the process (a panic in a
+	// goroutine of the code under test cannot be recovered here) leaves no partial trace behind
+	var lines [][]byte
 	emit := func(m map[string]any) {
 		b, _ := json.Marshal(m)
-		evw.Write(b)
-		evw.WriteByte('\n')
+		lines = append(lines, b)
 	}
+	defer func() {
+		for _, b := range lines {
+			evw.Write(b)
+			evw.WriteByte('\n')
+		}
+	}()
 	emit(map[string]any{"ev": "reset", "id": s.ID, "f": 0, "b": 0, "saw": []int{}, "tree": s.Tree, "deps": s.Deps})
 
 	unreal, moved := gate.RunSteps(s.Init, s.Steps, "ds.load")
@@ -372,6 +380,8 @@ func main() {
 	in := flag.String("in", "", "schedules NDJSON")
 	out := flag.String("out", "events.ndjson", "event stream for TLC")
 	resf := flag.String("res", "results.ndjson", "per-schedule results")
+	progressf := flag.String("progress", "", "file that always names the input line being processed (crash attribution)")
+	from := flag.Int("from", 0, "skip the first N input lines and append to the outputs (continue after a crash)")
 	flag.Parse()
 	f, err := os.Open(*in)
 	if err != nil {
@@ -379,20 +389,38 @@ func main() {
 		os.Exit(3)
 	}
 	defer f.Close()
-	of, _ := os.Create(*out)
+	openOut := os.Create
+	if *from > 0 {
+		openOut = func(name string) (*os.File, error) {
+			return os.OpenFile(name, os.O_CREATE|os.O_WRONLY|os.O_APPEND, 0o644)
+		}
+	}
+	var prog *os.File
+	if *progressf != "" {
+		prog, _ = os.Create(*progressf)
+		defer prog.Close()
+	}
+	of, _ := openOut(*out)
 	defer of.Close()
 	evw := bufio.NewWriterSize(of, 1<<20)
 	defer evw.Flush()
-	rf, _ := os.Create(*resf)
+	rf, _ := openOut(*resf)
 	defer rf.Close()
 	rw := bufio.NewWriter(rf)
 	defer rw.Flush()
 	sc := bufio.NewScanner(f)
 	sc.Buffer(make([]byte, 1<<20), 1<<26)
+	lineNo := 0
 	for sc.Scan() {
 		line := bytes.TrimSpace(sc.Bytes())
-		if len(line) == 0 {
+		lineNo++
+		if len(line) == 0 || lineNo <= *from {
 			continue
+		}
+		if prog != nil {
+			evw.Flush()
+			rw.Flush()
+			prog.WriteAt([]byte(fmt.Sprintf("%12d\n", lineNo)), 0)
 		}
 		var s Sched
 		if err := json.Unmarshal(line, &s); err != nil {
